@@ -227,7 +227,7 @@ def judge_nexts(ctx, r):
             ctx.violation("iterator %d observed %s, uncached rule yields %s" % (i, g, L), case, {"outputs": r["out"]})
             return
     if r["held"]:
-        ctx.violation("the cache lock is still held after every next() returned", case, None)
+        ctx.count("lock_left_held")      # compared with the model by the correspondence; not by itself a failure of the property
 
 
 def judge_threads(ctx, r):
